@@ -855,3 +855,72 @@ pub fn bit_test_index_safe(a: &[u8; 2], x: u8) -> u8 {
 pub fn bit_test_index_panics(a: &[u8; 1], x: u8) -> u8 {
     a[usize::from(x & 0x80 != 0)]
 }
+
+// quantified facts in normal form (agvlib/quant.py): a checking loop that returns early bounds the length through the
+// u16 id; the same loop with `break` does not (elements after the break are unchecked)
+pub struct IdEl {
+    pub id: u16,
+    pub v: u8,
+}
+pub fn dense_loop_mul_safe(v: &[IdEl]) -> usize {
+    for (i, e) in v.iter().enumerate() {
+        if usize::from(e.id) != i {
+            return 0;
+        }
+    }
+    v.len() * 1_000_000
+}
+pub fn dense_loop_break_mul_panics(v: &[IdEl]) -> usize {
+    for (i, e) in v.iter().enumerate() {
+        if usize::from(e.id) != i {
+            break;
+        }
+    }
+    v.len() * 100_000_000_000_000
+}
+pub fn dense_position_mul_safe(v: &[IdEl]) -> usize {
+    if v.iter().enumerate().position(|(i, e)| usize::from(e.id) != i).is_some() {
+        return 0;
+    }
+    v.len() * 1_000_000
+}
+pub fn dense_all_mul_safe(v: &[IdEl]) -> usize {
+    if !v.iter().enumerate().all(|(i, e)| i == usize::from(e.id)) {
+        return 0;
+    }
+    v.len() * 1_000_000
+}
+pub fn dense_partial_mul_panics(v: &[IdEl]) -> usize {
+    // only the first half is checked
+    if v[..v.len() / 2].iter().enumerate().any(|(i, e)| usize::from(e.id) != i) {
+        return 0;
+    }
+    v.len() * 100_000_000_000_000
+}
+pub fn position_in_prefix_index_safe(v: &[u8], w: &[u8; 8]) -> u8 {
+    if v.len() < 9 {
+        return 0;
+    }
+    match v[..8].iter().position(|&b| b == 0) {
+        Some(i) => w[i],
+        None => 0,
+    }
+}
+pub fn position_in_whole_index_panics(v: &[u8], w: &[u8; 8]) -> u8 {
+    match v.iter().position(|&b| b == 0) {
+        Some(i) => w[i],
+        None => 0,
+    }
+}
+pub fn div_euclid_index_safe(a: &[u8; 4], x: i32) -> u8 {
+    if x < 0 || x > 255 {
+        return 0;
+    }
+    a[x.div_euclid(64) as usize]
+}
+pub fn div_euclid_neg_index_panics(a: &[u8; 4], x: i32) -> u8 {
+    if x < -255 || x > 255 {
+        return 0;
+    }
+    a[x.div_euclid(64) as usize]
+}
